@@ -2,7 +2,9 @@
 # usage: seedcheck.sh <seed-dir> <prop> [<prop>...]
 # 1. confirms the seeded change in a scratch worktree (suite passes with it, demo fails with / passes without)
 # 2. applies it to /repo, runs the given checks, and restores /repo
+# SEEDCHECK_FAST=1 skips step 1 (used by allseeds.sh: the seeds were confirmed when they were saved)
 set -u
+V=$(readlink -f "$(dirname "$0")/..")
 SD=$(readlink -f "$1"); shift
 export GOFLAGS=-mod=mod GOPROXY=off
 WT=/tmp/wt-verify-$$
@@ -14,11 +16,12 @@ if [ -f $SD/meta.json ]; then
   [ -n "$b" ] && BASE=$b
 fi
 git -C /repo worktree add -q --detach $WT $BASE || exit 2
-trap 'git -C /repo worktree remove --force $WT >/dev/null 2>&1; rm -rf /verif/.bin/alt-* /verif/.bin/mmmbbb-alt-*' EXIT
+trap 'git -C /repo worktree remove --force $WT >/dev/null 2>&1; rm -rf $V/.bin/alt-* $V/.bin/mmmbbb-alt-*' EXIT
 demofile=$(ls $SD/*_test.go $SD/*_test.go.txt 2>/dev/null | head -1)
 if [ -f $SD/demo_path.txt ]; then demo=$(cat $SD/demo_path.txt | tr -d '\n ');
 else demo=$(python3 -c "import json;print(json.load(open('$SD/meta.json'))['demonstration']['repo_path'])"); fi
 pkg=./$(dirname $demo)/
+if [ -z "${SEEDCHECK_FAST:-}" ]; then
 ( cd $WT && git apply $SD/patch.diff ) || { echo "PATCH DOES NOT APPLY"; exit 2; }
 ( cd $WT && go build ./actions/ ./services/ ./filter/ ./faults/ ./grpc/ ./controllers/ ) || { echo "DOES NOT BUILD"; exit 2; }
 echo "--- existing suite with the change:"
@@ -29,8 +32,9 @@ echo "--- demo with the change (expect FAIL):"
 ( cd $WT && git apply -R $SD/patch.diff )
 echo "--- demo without the change (expect ok):"
 ( cd $WT && go test -vet=off -count=1 -run 'Seeded|Demo' $pkg 2>&1 | tail -3 )
+fi
 echo "--- checks against a scratch worktree of /repo $BASE with the change applied:"
 ( cd $WT && rm -f $demo && git apply $SD/patch.diff ) || { echo "PATCH DOES NOT APPLY"; exit 2; }
 for p in "$@"; do
-  VERIF_REPO=$WT /verif/check $p 2>&1 | grep -E "^(VIOLATION|KNOWN|INCONCLUSIVE|NOTE|  signature|$p )" | cut -c1-230 | head -14
+  VERIF_REPO=$WT $V/check $p 2>&1 | grep -E "^(VIOLATION|KNOWN|INCONCLUSIVE|NOTE|  signature|$p )" | cut -c1-230 | head -14
 done
